@@ -99,28 +99,25 @@ Definition rle_decode_run (z : list N) : N * N * N :=
   let r2 := tagged_get64 (skipn (N.to_nat (fst r1)) z) in
   (fst r1 + fst r2, snd r1, snd r2).
 
-(* outcome of a decoder: the stores made (in index order 0,1,2,...), or a
-   store past the capacity, or the loop ran off the end of the bytes it was
-   given (possible only on hostile input; theorems exclude it) *)
+(* outcome of a decoder: the stores made (in index order 0,1,2,...), or the
+   loop ran off the end of the bytes it was given (possible only on hostile
+   input; theorems exclude it) *)
 Inductive rres :=
 | ROk (stores : list N)
-| ROob (stores : list N)      (* next store would be at an index >= maxCount *)
 | RFuel (stores : list N).
 
 Definition rres_app (pre : list N) (r : rres) : rres :=
   match r with
   | ROk l => ROk (pre ++ l)
-  | ROob l => ROob (pre ++ l)
   | RFuel l => RFuel (pre ++ l)
   end.
 
 Definition rres_stores (r : rres) : list N :=
-  match r with ROk l => l | ROob l => l | RFuel l => l end.
+  match r with ROk l => l | RFuel l => l end.
 
-(* varintRLEDecode main loop.  total = totalDecoded.  `totalDecoded + toWrite`
-   and `totalDecoded + runLen` are size_t sums with a stream-supplied term:
-   add64.  When the first sum wraps, toWrite stays runLen > room: the C code
-   then stores past maxCount — ROob. *)
+(* varintRLEDecode main loop (after the fix of the hostile-stream overflow:
+   the run is clipped by comparing it with the room left, no sum that could
+   wrap).  total = totalDecoded. *)
 Fixpoint rle_decode_loop (fuel : nat) (z : list N) (maxCount total : N) : rres :=
   match fuel with
   | O => RFuel []
@@ -130,13 +127,10 @@ Fixpoint rle_decode_loop (fuel : nat) (z : list N) (maxCount total : N) : rres :
         if runLen =? 0 then ROk []
         else
           let room := maxCount - total in
-          let toWrite := if maxCount <? add64 total runLen then room else runLen in
-          if room <? toWrite then ROob (repeat value (N.to_nat room))
-          else
-            let total' := total + toWrite in
-            let w := repeat value (N.to_nat toWrite) in
-            if (maxCount <? add64 total' runLen) && (toWrite <? runLen) then ROk w
-            else rres_app w (rle_decode_loop f (skipn (N.to_nat consumed) z) maxCount total')
+          let toWrite := if room <? runLen then room else runLen in
+          let w := repeat value (N.to_nat toWrite) in
+          if toWrite <? runLen then ROk w
+          else rres_app w (rle_decode_loop f (skipn (N.to_nat consumed) z) maxCount (total + toWrite))
       else ROk []
   end.
 
